@@ -69,7 +69,7 @@ meta = {"property": prop, "needs_to_manifest": needs, "demo": demo,
         "confirmed": {"suite_passed_with_change": passed_with, "baseline_tests_missing_with_change": missing_with,
                       "demo_rc_with_change": r_with.returncode, "demo_rc_without_change": r_without.returncode,
                       "demo_failure": (r_with.stderr or r_with.stdout)[-400:]},
-        "ran": [f"baseline suite in scratch worktree {wt}", f"demo with/without change (git stash)", detect.get("check_cmd", "")],
+        "ran": [f"baseline suite in scratch worktree {wt}", f"demo with/without change (git apply -R / git apply)", detect.get("check_cmd", "")],
         "detected_by_check": detect}
 json.dump(meta, open(os.path.join(dst, "meta.json"), "w"), indent=1)
 print("stored", dst)
